@@ -18,6 +18,7 @@ import (
 	"math"
 	"math/rand"
 	"sort"
+	"strconv"
 	"time"
 
 	"github.com/apernet/quic-go/congestion"
@@ -53,6 +54,12 @@ type c12SimIn struct {
 	ThrFrom  int64 `json:"thrFrom"`
 	ThrWin   int64 `json:"thrWin"`
 	ThrMinPm int64 `json:"thrMinPm"`
+	// the RTT extremes: rttUs > 0 gives the base round trip in microseconds (overrides rtt; LAN / same-metro paths of
+	// 0.1..0.9 ms, where a round trip is less than one unit of any millisecond arithmetic); warmMs > 0 replaces the 2 s
+	// after which throughputRatio starts counting (runs of a few hundred round trips last well under 2 s there, and
+	// STARTUP alone takes tens of seconds on a 1-2 s path)
+	RttUs  int64 `json:"rttUs"`
+	WarmMs int64 `json:"warmMs"`
 }
 
 type c12Clock struct{ now *int64 }
@@ -201,6 +208,13 @@ func c12Sim(in *c12SimIn, res map[string]any) {
 	var linkFree int64
 	var delivered, deliveredAfterWarm int64
 	warm := int64(2000) * ms
+	if in.WarmMs > 0 {
+		warm = in.WarmMs * ms
+	}
+	baseRtt := in.RttMs * ms // propagation round trip, ns
+	if in.RttUs > 0 {
+		baseRtt = in.RttUs * 1000
+	}
 	lastLeast := int64(-1 << 62)
 	firstSent := int64(-1)
 	lastSentPn := int64(-1)
@@ -380,7 +394,7 @@ func c12Sim(in *c12SimIn, res map[string]any) {
 		}
 		depart := max(now, linkFree) + size*1e9/in.CapBps
 		linkFree = depart
-		at := depart + in.RttMs*ms
+		at := depart + baseRtt
 		if in.AggUs > 0 {
 			g := in.AggUs * 1000
 			at = (at/g + 1) * g
@@ -425,9 +439,11 @@ func c12Sim(in *c12SimIn, res map[string]any) {
 			r := float64(got) / (float64(in.CapBps) * float64(in.ThrWin) / 1000)
 			winRatio = append(winRatio, math.Round(r*10000)/10000)
 			if r*1000 < float64(in.ThrMinPm) {
-				failSoft("throughput-window", fmt.Sprintf("loss-free path of fixed capacity %d B/s, RTT %d ms, profile %s: the window [%d ms, %d ms) delivered %.1f%% of capacity (required %.1f%%); mode %d, GetCongestionWindow %d = %d datagrams, %d PROBE_RTT entries so far",
-					in.CapBps, in.RttMs, in.Profile, in.ThrFrom+judged*in.ThrWin, in.ThrFrom+(judged+1)*in.ThrWin, 100*r, float64(in.ThrMinPm)/10,
-					b.mode, b.GetCongestionWindow(), int64(b.GetCongestionWindow())/int64(b.maxDatagramSize), len(probeRttEntries)))
+				failSoft("throughput-window", fmt.Sprintf("loss-free path of fixed capacity %d B/s, RTT %s ms, profile %s: the window [%d ms, %d ms) delivered %.1f%% of capacity (required %.1f%%); mode %d, GetCongestionWindow %d = %d datagrams, %d PROBE_RTT entries so far; sender's min RTT %d ns, bandwidth estimate %d B/s, i.e. a bandwidth-delay product of %d datagrams",
+					in.CapBps, strconv.FormatFloat(float64(baseRtt)/1e6, 'f', -1, 64), in.Profile, in.ThrFrom+judged*in.ThrWin, in.ThrFrom+(judged+1)*in.ThrWin, 100*r, float64(in.ThrMinPm)/10,
+					b.mode, b.GetCongestionWindow(), int64(b.GetCongestionWindow())/int64(b.maxDatagramSize), len(probeRttEntries),
+					int64(b.getMinRtt()), int64(b.bandwidthEstimate()/BytesPerSecond),
+					int64(float64(b.getMinRtt())/1e9*float64(b.bandwidthEstimate()/BytesPerSecond)/float64(b.maxDatagramSize))))
 			}
 			judged++
 		}
